@@ -168,4 +168,4 @@ PINNED = [
                "formula": "1 + A", "output": "pandas", "scen": "flip", "target": "A", "label": "A",
                "change": {"kind": "num", "dtype": "float64", "values": [1.0, 2, 3, 4, 5, 6, 7, 8]}, "na": "drop", "wrapped": False, "tdtype": "category", "shape": [1]}),
 ]
-SUBS = {"reuse": Sub(judge=judge, gen=gen_case, quick=2500, thorough=200_000, min_decided=500)}
+SUBS = {"reuse": Sub(judge=judge, gen=gen_case, quick=6000, thorough=200_000, min_decided=500)}
